@@ -17,7 +17,7 @@ Open Scope Z_scope.
 
 (* ============================== ordering list ============================== *)
 (* positions_eq_indices after EVERY guarded operation of an attached list: append / insert / remove /
-   pop / l[i] = e (i >= 0) / slice assignment (any slice) / del l[i] / del l[sl] / extend / += /
+   pop / l[i] = e (any index) / slice assignment (any slice) / del l[i] / del l[sl] / extend / += /
    clear / reorder; for every count_from and both reorder_on_append settings *)
 Theorem c50_positions_eq_indices_guarded : forall base roa s o,
   Good base s -> ol_guard roa s o = true -> Good base (snd (ol_step base roa true s o)).
@@ -35,11 +35,11 @@ Proof. exact reload_is_list. Qed.
 Print Assumptions c50_persisted_order.
 
 (* the excluded regions *)
-Theorem c50_setitem_negative_index_refuted :
-  ol_guard false (ol3 false) (OSetItem (-1) 7) = false /\
-  show (snd (ol_step 0 false true (ol3 false) (OSetItem (-1) 7))) = [(0, Some 0); (1, Some 1); (7, Some (-1))].
-Proof. exact setitem_negative_refuted. Qed.
-Print Assumptions c50_setitem_negative_index_refuted.
+(* repaired by 60dfe78: a negative index is no longer excluded by the guard *)
+Example c50_setitem_negative_index_fixed :
+  ol_guard false (ol3 false) (OSetItem (-1) 7) = true /\
+  show (snd (ol_step 0 false true (ol3 false) (OSetItem (-1) 7))) = [(0, Some 0); (1, Some 1); (7, Some 2)].
+Proof. exact setitem_negative_fixed. Qed.
 
 Theorem c50_reverse_refuted :
   ol_guard false (ol3 false) OReverse = false /\
@@ -86,22 +86,20 @@ Theorem c50_proxy_list_is_view_guarded : forall s o, wf s -> pl_guard s o = true
 Proof. exact proxy_list_is_view. Qed.
 Print Assumptions c50_proxy_list_is_view_guarded.
 
-Theorem c50_proxy_list_setslice_refuted :
+(* repaired by 99130b4: slice assignment is inside the guarded theorem for EVERY slice *)
+Example c50_proxy_list_setslice_fixed :
   let sl := mkslice (Some 1) (Some 10) None in
-  pl_guard px3 (PSetSlice sl [7]) = false /\
-  fst (pl_step px3 (PSetSlice sl [7])) = PRaise IndexError /\
-  to_list (snd (pl_step px3 (PSetSlice sl [7]))) = [1] /\
+  pl_guard px3 (PSetSlice sl [7]) = true /\
+  fst (pl_step px3 (PSetSlice sl [7])) = POk /\
+  to_list (snd (pl_step px3 (PSetSlice sl [7]))) = [1; 7] /\
   plop_ref (to_list px3) (PSetSlice sl [7]) = (POk, [1; 7]).
-Proof. exact proxy_setslice_refuted. Qed.
-Print Assumptions c50_proxy_list_setslice_refuted.
-
-Theorem c50_proxy_list_setslice_negative_refuted :
+Proof. exact proxy_setslice_fixed. Qed.
+Example c50_proxy_list_setslice_negative_fixed :
   let sl := mkslice (Some (-2)) None None in
-  pl_guard px3 (PSetSlice sl [7]) = false /\
-  fst (pl_step px3 (PSetSlice sl [7])) = PRaise IndexError /\
+  pl_guard px3 (PSetSlice sl [7]) = true /\
+  (fst (pl_step px3 (PSetSlice sl [7])), to_list (snd (pl_step px3 (PSetSlice sl [7])))) = (POk, [1; 7]) /\
   plop_ref (to_list px3) (PSetSlice sl [7]) = (POk, [1; 7]).
-Proof. exact proxy_setslice_negative_refuted. Qed.
-Print Assumptions c50_proxy_list_setslice_negative_refuted.
+Proof. exact proxy_setslice_negative_fixed. Qed.
 
 Theorem c50_proxy_list_imul_negative_refuted :
   pl_guard px3 (PIMul (-1)) = false /\
@@ -117,12 +115,12 @@ Theorem c50_proxy_dict_is_view_guarded : forall s o, wf s -> pd_guard s o = true
 Proof. exact proxy_dict_is_view. Qed.
 Print Assumptions c50_proxy_dict_is_view_guarded.
 
-Theorem c50_proxy_dict_pop_default_refuted :
-  pd_guard pd1 (DPop 3 (Some 7)) = false /\
-  fst (pd_step pd1 (DPop 3 (Some 7))) = DAttrError /\
+(* repaired by f24ff68: pop(key, default) is inside the guarded theorem *)
+Example c50_proxy_dict_pop_default_fixed :
+  pd_guard pd1 (DPop 3 (Some 7)) = true /\
+  pd_step pd1 (DPop 3 (Some 7)) = (DOk (Some 7), pd1) /\
   pdop_ref (to_dict pd1) (DPop 3 (Some 7)) = (DOk (Some 7), [(0, 5)]).
-Proof. exact proxy_dict_pop_default_refuted. Qed.
-Print Assumptions c50_proxy_dict_pop_default_refuted.
+Proof. exact proxy_dict_pop_default_fixed. Qed.
 
 (* set: add / discard / remove / clear / update / difference_update / |= / -= (partial: the bulk
    intersection and symmetric-difference operations are covered by the check only) *)
